@@ -4,7 +4,7 @@ from __future__ import annotations
 from dataclasses import dataclass
 from typing import Any, Dict, List, Optional, Tuple
 
-from ..kit import Ctx, alloc_literal, calls, kw, loops
+from ..kit import path_text, Ctx, alloc_literal, calls, kw, loops
 from ..loader import FuncInfo
 from ..paths import Event, Path
 from ..terms import NONE, Term, key, strip_ver, subterms
@@ -58,6 +58,11 @@ def declared_hooks(ctx: Ctx, cname: str) -> Tuple[List[Hook], List[Path]]:
             if t[0] == "bin":
                 collect(t[2], depth + 1)
                 collect(t[3], depth + 1)
+            if t[0] == "star":  # [a, *more]: the elements of `more` are returned as well
+                collect(t[1], depth + 1)
+            if t[0] in ("list", "tuple"):
+                for x in t[1]:
+                    collect(x, depth + 1)
             # lists filled by append inside loops
             for e in p.walk_events(True):
                 if e.kind == "call" and e.name in ("append", "extend") and e.recv == t and e.args:
@@ -418,7 +423,8 @@ def check_identity_comparisons(ctx: Ctx, classes: Optional[List[str]], floor: in
                     why = next((k for k in kinds if k), None) or ("a literal" if any(const_val) else None)
                     if why:
                         bad += 1
-                        ctx.violated(g, n, f"{g.qualname}: values are compared by value", "`==` / `!=` (identity only for None, booleans and objects without value equality)", f"`{_ast.unparse(n)[:100]}` compares by identity a value of type {why}: equal values held in distinct objects are told apart")
+                        ctx.violated(g, n, f"{g.qualname}: values are compared by value", "`==` / `!=` (identity only for None, booleans and objects without value equality)", f"`{_ast.unparse(n)[:100]}` compares by identity a value of type {why}: equal values held in distinct objects are told apart",
+                                     **({"guard": "site"} if "value class" in str(why) else {"guard": "text", "guard_text": _ast.unparse(g.node)}))
                 left = right
         if not bad:
             clean += 1
